@@ -22,6 +22,7 @@ structure UnknownRuleOk (M : List Cps) (toks : List Tok) : Prop where
 structure AtFaithful (O : Oracle) : Prop where
   page : ∀ im ts, O.atOk .pageSym im ts = true
   fontface : ∀ im ts, O.atOk .fontFaceSym im ts = true
+  variables : ∀ im ts, O.atOk .variablesSym im ts = true
   import_ : ∀ ts, O.atOk .importSym false ts = (importRule O ts).isSome
   ns : ∀ ts, O.nsInfo ts = nsRule ts
 
